@@ -26,17 +26,24 @@ def constF (c : Option (Nat × Nat)) : Float :=
   | none => 0.0 / 0.0      -- unrecognised constant: NaN, every comparison false
 
 /-- The IEEE-double computation of `_update_state` (Lean `Float` = C double = Python float for `/`, `*`, `-`
-    and comparisons).  The three thresholds and the debt weight are the ones extracted from the source on this
-    run (`Operon.Gen.Metabolism`); the harness cross-checks the whole function on a boundary grid at start-up
-    through `fcheck`. -/
+    and comparisons).  The comparison chain, its threshold values and the debt weight are the ones extracted
+    from the source on this run (`Operon.Gen.Metabolism`, values obtained by evaluation); the harness
+    cross-checks the whole function on a boundary grid at start-up through `fcheck`. -/
 def floatCls : Classifier := fun r p =>
   let q (x : Quo) : Float := Float.ofInt x.num / Float.ofInt x.den
   let ratio : Float := match r with | none => 0.0 | some x => q x
   let ratio : Float := match p with | none => ratio | some x => ratio - (q x) * constF Gen.Metabolism.debtWeight
-  if ratio <= constF Gen.Metabolism.starving then .starving
-  else if ratio <= constF Gen.Metabolism.conserving then .conserving
-  else if ratio >= constF Gen.Metabolism.feasting then .feasting
-  else .normal
+  let rec go : List (String × (Nat × Nat) × String) → String
+    | [] => Gen.Metabolism.elseState
+    | (op, thr, st) :: rest =>
+      let t := constF (some thr)
+      let hit : Bool := match op with
+        | "le" => decide (ratio <= t) | "lt" => decide (ratio < t) | "ge" => decide (ratio >= t)
+        | "gt" => decide (ratio > t) | _ => false
+      if hit then st else go rest
+  match go Gen.Metabolism.chain with
+  | "starving" => .starving | "conserving" => .conserving | "feasting" => .feasting | "dormant" => .dormant
+  | _ => .normal
 
 def curOf : String → Option Cur
   | "atp" => some .atp | "gtp" => some .gtp | "nadh" => some .nadh | _ => none
